@@ -398,7 +398,7 @@ def domain(field, kinds, ty):
     elif "boolean" in ty or kinds <= {"bool", "truthy"} and "bool" in kinds or (kinds == {"truthy"} and "string" not in ty and "number" not in ty):
         vals = ["FBool true", "FBool false"]
     elif "number" in ty or "num" in kinds:
-        vals = ["FNum 5"]
+        vals = ["FNum 5", "FNum 0"]      # 0 is falsy in JS (`if (limit)`) and a boundary value for the CLI's number parsers
     else:
         rep = "snake" if "tyle" in field else ("^skip" if "ines" in field else ("*.rs" if "clude" in field else "value"))
         vals = [f"FStr {coq_bytes(rep)}"]
